@@ -69,8 +69,14 @@ impl<T> Object<T> {
     #[must_use]
     pub fn take(mut this: Self) -> T {
         if let Some(pool) = this.pool.upgrade() {
+            #[cfg(deadpool_verif)]
+            crate::verif::point("u_take:enter", Arc::as_ptr(&pool) as usize);
             let _ = pool.size.fetch_sub(1, Ordering::Relaxed);
+            #[cfg(deadpool_verif)]
+            crate::verif::point("u_take:size_dec", Arc::as_ptr(&pool) as usize);
             pool.size_semaphore.add_permits(1);
+            #[cfg(deadpool_verif)]
+            crate::verif::point("u_take:permit_added", Arc::as_ptr(&pool) as usize);
         }
         this.obj.take().unwrap()
     }
@@ -80,13 +86,23 @@ impl<T> Drop for Object<T> {
     fn drop(&mut self) {
         if let Some(obj) = self.obj.take() {
             if let Some(pool) = self.pool.upgrade() {
+                #[cfg(deadpool_verif)]
+                crate::verif::point("u_return:enter", Arc::as_ptr(&pool) as usize);
                 {
                     let mut queue = pool.queue.lock().unwrap();
                     queue.push(obj);
                 }
+                #[cfg(deadpool_verif)]
+                crate::verif::point("u_return:pushed", Arc::as_ptr(&pool) as usize);
                 let _ = pool.available.fetch_add(1, Ordering::Relaxed);
+                #[cfg(deadpool_verif)]
+                crate::verif::point("u_return:avail_inc", Arc::as_ptr(&pool) as usize);
                 pool.semaphore.add_permits(1);
+                #[cfg(deadpool_verif)]
+                crate::verif::point("u_return:permit_added", Arc::as_ptr(&pool) as usize);
                 pool.clean_up();
+                #[cfg(deadpool_verif)]
+                crate::verif::point("u_return:exit", Arc::as_ptr(&pool) as usize);
             }
         }
     }
@@ -193,12 +209,20 @@ impl<T> Pool<T> {
             TryAcquireError::NoPermits => PoolError::Timeout,
             TryAcquireError::Closed => PoolError::Closed,
         })?;
+        #[cfg(deadpool_verif)]
+        crate::verif::point("u_try_get:permit", Arc::as_ptr(&self.inner) as usize);
         let obj = {
             let mut queue = inner.queue.lock().unwrap();
             queue.pop().unwrap()
         };
+        #[cfg(deadpool_verif)]
+        crate::verif::point("u_try_get:popped", Arc::as_ptr(&self.inner) as usize);
         permit.forget();
+        #[cfg(deadpool_verif)]
+        crate::verif::point("u_try_get:forgot", Arc::as_ptr(&self.inner) as usize);
         let _ = inner.available.fetch_sub(1, Ordering::Relaxed);
+        #[cfg(deadpool_verif)]
+        crate::verif::point("u_try_get:avail_dec", Arc::as_ptr(&self.inner) as usize);
         Ok(Object {
             pool: Arc::downgrade(&self.inner),
             obj: Some(obj),
@@ -213,6 +237,8 @@ impl<T> Pool<T> {
     /// See [`PoolError`] for details.
     pub async fn timeout_get(&self, timeout: Option<Duration>) -> Result<Object<T>, PoolError> {
         let inner = self.inner.as_ref();
+        #[cfg(deadpool_verif)]
+        crate::verif::point("u_get:enter", Arc::as_ptr(&self.inner) as usize);
         let permit = match (timeout, inner.config.runtime) {
             (None, _) => inner
                 .semaphore
@@ -232,12 +258,20 @@ impl<T> Pool<T> {
                 .map_err(|_| PoolError::Closed),
             (Some(_), None) => Err(PoolError::NoRuntimeSpecified),
         }?;
+        #[cfg(deadpool_verif)]
+        crate::verif::point("u_get:permit", Arc::as_ptr(&self.inner) as usize);
         let obj = {
             let mut queue = inner.queue.lock().unwrap();
             queue.pop().unwrap()
         };
+        #[cfg(deadpool_verif)]
+        crate::verif::point("u_get:popped", Arc::as_ptr(&self.inner) as usize);
         permit.forget();
+        #[cfg(deadpool_verif)]
+        crate::verif::point("u_get:forgot", Arc::as_ptr(&self.inner) as usize);
         let _ = inner.available.fetch_sub(1, Ordering::Relaxed);
+        #[cfg(deadpool_verif)]
+        crate::verif::point("u_get:avail_dec", Arc::as_ptr(&self.inner) as usize);
         Ok(Object {
             pool: Arc::downgrade(&self.inner),
             obj: Some(obj),
@@ -257,6 +291,8 @@ impl<T> Pool<T> {
         match self.inner.size_semaphore.acquire().await {
             Ok(permit) => {
                 permit.forget();
+                #[cfg(deadpool_verif)]
+                crate::verif::point("u_add:permit", Arc::as_ptr(&self.inner) as usize);
                 self._add(object);
                 Ok(())
             }
@@ -275,6 +311,8 @@ impl<T> Pool<T> {
         match self.inner.size_semaphore.try_acquire() {
             Ok(permit) => {
                 permit.forget();
+                #[cfg(deadpool_verif)]
+                crate::verif::point("u_try_add:permit", Arc::as_ptr(&self.inner) as usize);
                 self._add(object);
                 Ok(())
             }
@@ -292,12 +330,20 @@ impl<T> Pool<T> {
     /// the `size_semaphore`.
     fn _add(&self, object: T) {
         let _ = self.inner.size.fetch_add(1, Ordering::Relaxed);
+        #[cfg(deadpool_verif)]
+        crate::verif::point("u_add:size_inc", Arc::as_ptr(&self.inner) as usize);
         {
             let mut queue = self.inner.queue.lock().unwrap();
             queue.push(object);
         }
+        #[cfg(deadpool_verif)]
+        crate::verif::point("u_add:pushed", Arc::as_ptr(&self.inner) as usize);
         let _ = self.inner.available.fetch_add(1, Ordering::Relaxed);
+        #[cfg(deadpool_verif)]
+        crate::verif::point("u_add:avail_inc", Arc::as_ptr(&self.inner) as usize);
         self.inner.semaphore.add_permits(1);
+        #[cfg(deadpool_verif)]
+        crate::verif::point("u_add:permit_added", Arc::as_ptr(&self.inner) as usize);
     }
 
     /// Removes an [`Object`] from this [`Pool`].
@@ -321,9 +367,17 @@ impl<T> Pool<T> {
     /// All current and future tasks waiting for [`Object`]s will return
     /// [`PoolError::Closed`] immediately.
     pub fn close(&self) {
+        #[cfg(deadpool_verif)]
+        crate::verif::point("u_close:enter", Arc::as_ptr(&self.inner) as usize);
         self.inner.semaphore.close();
+        #[cfg(deadpool_verif)]
+        crate::verif::point("u_close:sem_closed", Arc::as_ptr(&self.inner) as usize);
         self.inner.size_semaphore.close();
+        #[cfg(deadpool_verif)]
+        crate::verif::point("u_close:size_sem_closed", Arc::as_ptr(&self.inner) as usize);
         self.inner.clear();
+        #[cfg(deadpool_verif)]
+        crate::verif::point("u_close:exit", Arc::as_ptr(&self.inner) as usize);
     }
 
     /// Indicates whether this [`Pool`] has been closed.
@@ -346,6 +400,21 @@ impl<T> Pool<T> {
             } else {
                 0
             },
+        }
+    }
+
+    /// Snapshot of the pool internals (verification builds only).
+    #[cfg(deadpool_verif)]
+    #[must_use]
+    pub fn verif_snapshot(&self) -> crate::verif::UnmanagedSnapshot {
+        let queue = self.inner.queue.lock().unwrap();
+        crate::verif::UnmanagedSnapshot {
+            permits: self.inner.semaphore.available_permits(),
+            size_permits: self.inner.size_semaphore.available_permits(),
+            size: self.inner.size.load(Ordering::Relaxed),
+            available: self.inner.available.load(Ordering::Relaxed),
+            queue: queue.len(),
+            closed: self.inner.semaphore.is_closed(),
         }
     }
 }
